@@ -68,6 +68,15 @@ func versionCases(fn *ssa.Function, isV func(ssa.Value) bool) (cases []int64, ha
 				hasDefaultErr = true
 			}
 		}
+		// the sentinel wrapped with context (fmt.Errorf("%w: ...", ErrUnsupportedVersion, v))
+		if cc, ok := ev.(*ssa.Call); ok && core.CalleeID(cc) == "fmt.Errorf" {
+			if core.Derives(cc, func(x ssa.Value) bool {
+				g, isG := x.(*ssa.Global)
+				return isG && strings.Contains(g.Name(), "Unsupported")
+			}, core.DeriveOpts{ThroughCalls: true}) {
+				hasDefaultErr = true
+			}
+		}
 	}
 	return
 }
@@ -477,7 +486,7 @@ func c19(c *Ctx) {
 			for _, b := range fn.Blocks {
 				for _, in := range b.Instrs {
 					if st, ok := in.(*ssa.Store); ok {
-						if ia, ok := st.Addr.(*ssa.IndexAddr); ok && core.Derives(ia.X, isLocal, core.DeriveOpts{}) {
+						if ia, ok := st.Addr.(*ssa.IndexAddr); ok && sliceOfLocal(ia.X, isLocal) {
 							r.Fail("R1.local-versions-immutable", core.FuncName(fn)+" element-store", p.Pos(st.Pos()), "an element of the local version list is overwritten")
 						}
 					}
@@ -613,6 +622,7 @@ func c19(c *Ctx) {
 		}
 	})
 	r.Check(nset >= 1, "R3.helper", name+" caches", p.Pos(N.Pos()), fmt.Sprintf("%d cache writes", nset), "the helper no longer caches")
+	errorsExamined(c, "R4.errors-examined", "version negotiation", []string{"portalwire"}, ".getOrStoreHighestVersion", "portalwire.findBiggestSameNumber", ".parseOfferResp", ".filterContentKeys", ".encodeUtpContent", ".decodeUtpContent", ".handleOffer", ".processOffer")
 }
 
 // highestCommonFn finds the (local versions, peer versions) -> (uint8, error) function the
@@ -769,4 +779,30 @@ func staleRecordSource(p *core.Prog, v ssa.Value, in *ssa.Function, depth int, s
 		}
 	}
 	return ""
+}
+
+// sliceOfLocal: v is the local list itself or a re-slice / type change of it (not a scratch
+// array - the argument array of a log call - into which the list was merely put).
+func sliceOfLocal(v ssa.Value, isLocal func(ssa.Value) bool) bool {
+	for i := 0; i < 6; i++ {
+		if isLocal(v) {
+			return true
+		}
+		switch x := v.(type) {
+		case *ssa.Slice:
+			v = x.X
+		case *ssa.ChangeType:
+			v = x.X
+		case *ssa.Phi:
+			for _, e := range x.Edges {
+				if sliceOfLocal(e, isLocal) {
+					return true
+				}
+			}
+			return false
+		default:
+			return false
+		}
+	}
+	return false
 }
